@@ -123,12 +123,15 @@ pub fn replay_reshape(case: &Value, rep: &mut Report) {
                     json!({"step": i, "expected": want_shape, "observed_shape": shape_dims(&after.shape), "observed_data_dims": data_dims(&after.data)}),
                     case,
                 );
+                // C08, last clause: the flat <-> spatial transitions are these very operations (row-major flatten / reshape)
+                rep.mismatch("C08", "flat_spatial_transition_changes_the_shape", &id, json!({"step": i, "expected": want_shape, "observed_data_dims": data_dims(&after.data)}), case);
                 return;
             }
             let want_flat = vec1(&step["flat"]);
             // Row-major sequence, both through our own traversal and through the public `get_flat`.
             if let Some(d) = diff_flat_exact(&flat(&after), &want_flat) {
                 rep.mismatch("C14", "row_major", &id, json!({"step": i, "diff": d}), case);
+                rep.mismatch("C08", "flat_spatial_transition_loses_row_major_order", &id, json!({"step": i, "diff": d}), case);
                 return;
             }
             match guarded(|| after.get_flat()) {
